@@ -302,6 +302,10 @@ class MinFlowDecompCycles(walkmodel.AbstractWalkModelDiGraph):
         if any(self.flow_attr not in self.G.edges[e] for e in self.G.edges):
             return None
 
+        # Nor is anything computed from flow values that are not valid (negative, NaN or infinite): the k-model rejects them with a ValueError
+        if any(not (0 <= self.G.edges[e][self.flow_attr] < float("inf")) for e in self.G.edges):
+            return None
+
         # The largest flow value is used below as the number of times an element of the generating set can be repeated:
         # a value below 1 (float flows) is not such a count, and no bound is computed from it
         if self.w_max < 1:
